@@ -286,6 +286,8 @@ func c07(mode, in, out string) error {
 		return runCases(in, out, c07Case)
 	case "record":
 		return c07Record(in, out)
+	case "fontdict":
+		return runCases(in, out, c07FontDict)
 	}
 	return fmt.Errorf("c07: unknown mode %s", mode)
 }
